@@ -114,6 +114,18 @@ func parseContractComments(fset *token.FileSet, f *ast.File, pkgPath string) ([]
 		if t == "" {
 			continue
 		}
+		if strings.HasPrefix(t, "nonneg ") {
+			if err := flush(); err != nil {
+				return nil, err
+			}
+			nn := &Contract{PkgPath: pkgPath, Src: src, Key: "$nonneg"}
+			for _, f := range strings.FieldsFunc(t[7:], func(r rune) bool { return r == ',' || r == ' ' }) {
+				nn.ModText = append(nn.ModText, f)
+			}
+			out = append(out, nn)
+			cur = nil
+			continue
+		}
 		if strings.HasPrefix(t, "def ") {
 			if err := flush(); err != nil {
 				return nil, err
